@@ -27,8 +27,6 @@ def display_fmt(ty, spec, facts):
 
 
 H = 'all_ok(ops0)'
-ARM_HINTS = ('match ops0[n] { Op::Dash { pattern, phase } => { lemma_dash(st_open(s0), pattern@); }, '
-             'Op::TextDrawAdjusted { array } => { lemma_tj(arr_of(f.st().recs.last().a[0]), array@); }, _ => {} }')
 
 SER_REWRITES = [
     # R7: the sink (a local Vec<u8>) is the reader-state model `Out`
@@ -36,18 +34,24 @@ SER_REWRITES = [
     # R2: `mut ops` parameter -> immutable parameter + `let mut ops` (the input stays nameable in the contract)
     {'where': 'sig', 'rule': 'R2', 'find': 'mut ops: &[Op]', 'replace': 'ops_in: &[Op]'},
     {'rule': 'R2', 'find': 'use std::io::Write;', 'replace': ''},
-    {'rule': 'R1', 'find': 'Ok(data)', 'replace': 'proof { lemma_tail_end(ops@, ops0, n); } Ok(data)'},
+    {'rule': 'R1', 'find': 'Ok(data)', 'replace': 'proof { lemma_tail_end(ops@, ops0, n); lemma_reads_end(f.st(), cuts, lasts, ops0, n, f.st().last); } Ok(data)'},
     # R7 + R1: ghost bookkeeping (segmentation witnesses) declared next to the sink
     {'rule': 'R7', 'find': 'let mut data = Vec::new();',
      'replace': 'hide(group_k); hide(arity_k); hide(pre_k); hide(expected_k); hide(is_relational_k); hide(rel_relational_k); hide(new_last_k); let mut ops = ops_in; let mut data = Out::new(); let ghost ops0 = ops@; proof { lemma_tail_start(ops0); lemma_reads_start(ops0); } let ghost mut n: int = 0; '
                 'let ghost mut cuts: Seq<int> = seq![0int]; let ghost mut lasts: Seq<Point> = seq![origin()];'},
     {'rule': 'R1', 'find': 'let mut advance = 1;', 'replace': 'let mut advance = 1; let ghost s0 = f.st(); proof { lemma_tail_idx(ops@, ops0, n); lemma_ok_idx(ops0, n); }'},
+    # R1: the three per-iteration checks and the ghost bookkeeping, at the end of the loop body.
+    #  (1) round_trip: exactly one record was completed and it stands, under the table, for the operations at the head
+    #      of the window; (2) window_advance: the window advances by exactly the number of operations the record stands
+    #      for; (3) current_point: the reader's current point moved as Table 59 says for the operation written.
+    # The three predicates are opaque outside their own `by` block; lemma_merge turns them into the loop invariant.
     {'rule': 'R1', 'find': 'ops = &ops[advance..];',
-     'replace': 'proof { lemma_tail(ops@, ops0, n, advance as int); let rec = f.st().recs.last(); let cnt = row_count(rec, s0.last);\n'
-                ' assert(%s ==> advance == cnt); //@L window_advance\n'
-                ' lemma_step(s0.recs, cuts, lasts, ops0, rec, cnt); '
-                'lasts = lasts.push(new_last_k(kw(rec.kw), rec.a, lasts.last())); '
-                'n = n + advance; cuts = cuts.push(n); } ops = &ops[advance..];' % H},
+     'replace': 'proof { match ops0[n] { Op::Dash { pattern, phase } => { lemma_dash(st_open(s0), pattern@); }, _ => {} }\n'
+                ' assert(%s ==> arm_rt(s0, f.st(), ops0, n)) //@L round_trip\n by { reveal(arm_rt); }\n'
+                ' assert(%s ==> arm_adv(s0, f.st(), advance as int)) //@L window_advance\n by { reveal(arm_rt); reveal(arm_adv); }\n'
+                ' assert(%s ==> arm_cp(s0, f.st(), ops0, n)) //@L current_point\n by { reveal(arm_rt); reveal(arm_cp); }\n'
+                ' lemma_tail(ops@, ops0, n, advance as int); lemma_merge(s0, f.st(), cuts, lasts, ops0, n, advance as int); '
+                'lasts = lasts.push(f.st().last); n = n + advance; cuts = cuts.push(n); } ops = &ops[advance..];' % (H, H, H)},
     # R2: deref coercion `&Name -> &str` written out
     {'rule': 'R2', 'regex': r'serialize_name\((\w+), f\)', 'count': '*', 'replace': r'serialize_name(\1.as_str(), f)'},
     # R10: slice patterns over the look-ahead window `ops[1..]` -> the same patterns over (ops.get(1), ops.get(2), ..).
@@ -72,14 +76,9 @@ SER_REWRITES = [
     # R6: enumerate -> index loop
     {'rule': 'R6', 'find': 'for (i, val) in array.iter().enumerate() {',
      'replace': 'for i in 0..array.len() { let val = &array[i];'},
-    # R1: every `writeln!(..)?` completes one operator record: the per-arm check is injected right behind it
-    {'rule': 'R1', 'regex': r'writeln!\(((?:[^()]|\((?:[^()]|\([^()]*\))*\))*)\)\?', 'count': '*',
-     'replace': r'({ writeln!(\1)?; proof { assert(%s ==> arm_ok(s0, f.st(), ops0, n)); //@L round_trip\n } })' % H},
-    # R1: lemma hints for the two operators that carry a vector (inside the block opened by the wrap above)
-    {'rule': 'R1', 'regex': r'\(\{ (writeln!\(f, "\[\{\}\] \{\} d", iter_format_sp\((\w+)\))', 'count': '*',
-     'replace': r'({ proof { lemma_dash(st_open(f.st()), \2@); } \1'},
-    {'rule': 'R1', 'regex': r'\(\{ (writeln!\(f, "\] TJ"\))', 'count': '*',
-     'replace': r'({ proof { if f.st().arr is Some { lemma_tj(f.st().arr->Some_0, array@); } } \1'},
+    # R1: lemma hint for TJ (statement position, in front of the closing `] TJ`)
+    {'rule': 'R1', 'regex': r'(writeln!\(f, "\] TJ"\))', 'count': '*',
+     'replace': r'proof { if f.st().arr is Some { lemma_tj(f.st().arr->Some_0, array@); } } \1'},
     # R4: unimplemented!() must be unreachable
     {'rule': 'R4', 'regex': r'unimplemented!\(\)', 'count': '*', 'replace': 'verif_panic("unimplemented")'},
 ]
@@ -97,7 +96,7 @@ INNER_TJ_INV = [
 UNIT = {
  'name': 'serops',
  'doc': 'serialize_ops (look-ahead merging writer) reads back, under the operator table of units/ops, as the sequence it was given',
- 'rlimit': 150, 'timeout': 1500,
+ 'rlimit': 80, 'timeout': 1500,
  'deviations': {},
  'allowed_assumes': [],
  'items': {
@@ -137,8 +136,8 @@ UNIT = {
         1: {'invariant': [
                'ops0 == ops_in@', '0 <= n <= ops0.len()', 'is_tail(ops@, ops0, n)',
                ('round_trip', '%s ==> st_rest(f.st())' % H),
-               ('round_trip', '%s ==> (reads_as(f.st().recs, cuts, lasts, ops0) && cuts.last() == n)' % H),
-               ('current_point', '%s ==> (lasts.last() == f.st().last && (current_point is Some ==> current_point == Some(f.st().last)))' % H)],
+               ('round_trip', '%s ==> reads_to(f.st().recs, cuts, lasts, ops0, n, f.st().last)' % H),
+               ('current_point', '%s ==> (current_point is Some ==> current_point == Some(f.st().last))' % H)],
             'decreases': 'ops@.len()'},
         2: {'for_ghost': 'it', 'invariant': INNER_ARGS_INV},
         3: {'for_ghost': 'it', 'invariant': INNER_ARGS_INV},
